@@ -72,7 +72,7 @@ def cfgs(tier):
 
 def bounds(tier): return {'topologies_3ops_rank2': len(topologies(3, 2)), 'outside': 'DepthFirst variants; rank-3 operands and 4 operands only seeded subsets'}
 def mandatory(case_id, cfg_key): return False
-def on_compile_fail(case, cfg, cf): return 'broken'
+def on_compile_fail(case, cfg, cf): return 'skip'      # topologies whose pairwise reduction passes through a scalar are rejected by the library under every ISA (recorded in compile_matrix)
 
 
 def post_case(c, cfg, r):
